@@ -755,6 +755,9 @@ func (s *loopSet) errVarName(t *loopTr, v *types.Var, at ast.Node) string {
 // pkgVar returns the Lean name of package variable v, checking that it is a slice literal of
 // constants which nothing in the package ever modifies.
 func (s *loopSet) pkgVar(t *loopTr, v *types.Var, at ast.Node) string {
+	if n, ok := s.ifacePkgVar(t, v, at); ok { // stage 11 (loops_iface.go): an array of constant strings
+		return n
+	}
 	name := "var_" + v.Name()
 	if _, ok := s.varText[v]; ok {
 		return name
